@@ -140,6 +140,13 @@ func buildCorpus(tier string) {
 			corpus = append(corpus, corpusEntry{Text: t, Spec: genDataSpec(s)})
 		}
 	}
+	// names that are builtins, read as plain values (no call anywhere in the formula), and
+	// fields of two struct types that print the same name
+	for _, t := range []string{"year", "[len, upper]", "year + 1", "typeof max", "st2.N * 10 + st2.F", "[st2.S, st2.N]", "st1.N + st2.N", "st2"} {
+		for v := 0; v < 3; v++ {
+			corpus = append(corpus, corpusEntry{Text: t, Spec: genDataSpec(s)})
+		}
+	}
 	// runners that are never given a data map: what one of them binds is its own business
 	for i, t := range []string{"$a = 41, $a", "[$a, $b, $c]", "$c = [1], $b = 'q', 0", "$a", "$b = $a, [$b]", "$a = $a + 1"} {
 		for v := 0; v < 2; v++ {
